@@ -580,3 +580,16 @@ Section RefreshedProofs.
     split; [reflexivity|]. unfold refreshed. destruct (fh_is_unknown old) eqn:E; [exact E|reflexivity].
   Qed.
 End RefreshedProofs.
+
+(* ---------- cfg_equiv read as equality of finite maps ---------- *)
+Theorem cfg_equiv_same_maps c1 c2 :
+  nodup_keys (cfg_inps c1) = true -> nodup_keys (cfg_envs c1) = true ->
+  nodup_keys (cfg_ovrs c1) = true -> cfg_equiv c1 c2 ->
+  cfg_label c1 = cfg_label c2 /\ cfg_shell c1 = cfg_shell c2 /\
+  forall k, lookup k (cfg_inps c1) = lookup k (cfg_inps c2)
+            /\ lookup k (cfg_envs c1) = lookup k (cfg_envs c2)
+            /\ lookup k (cfg_ovrs c1) = lookup k (cfg_ovrs c2).
+Proof.
+  intros N1 N2 N3 [El [Es [Pi [Pe Po]]]]. split; [exact El|]. split; [exact Es|]. intros k.
+  repeat split; apply perm_lookup; try assumption; apply nodupb_NoDup; assumption.
+Qed.
